@@ -92,4 +92,43 @@ theorem ptrOffsetFrom_within (m : Mode) {s r : Cur} (h1 : s.off ≤ r.off)
     (h2 : r.off + r.len ≤ s.off + s.len) : ptrOffsetFrom m r s = .ok (some (r.off - s.off)) := by
   cases m <;> simp [ptrOffsetFrom, h1, h2]
 
+/-- a decoder of C09 run through `via` on a window inside the section: the reader returns exactly
+what the decoder returns on the window's bytes and continues on exactly the bytes it left -/
+theorem via_ok {α : Type} (f : Bytes → Out (α × Bytes)) (adv : Bytes → Err → Nat) (c c' : Cur)
+    (v : α) (hinv : c.Inv)
+    (hsuffix : ∀ v rest, f c.bytes = .ok (v, rest) → ∃ pre, c.bytes = pre ++ rest)
+    (h : Dflt.via sharedCore f adv c = (.ok v, c')) :
+    ∃ rest, f c.bytes = .ok (v, rest) ∧ c'.sec = c.sec ∧ c'.bytes = rest ∧
+      c'.off = c.off + (c.len - rest.length) ∧ c'.len = rest.length := by
+  unfold Dflt.via at h
+  simp only [sharedCore, Shared.toSlice, SubRange.bytes] at h
+  cases hf : f c.bytes with
+  | ok p =>
+    obtain ⟨v', rest⟩ := p
+    rw [hf] at h
+    simp only [Prod.mk.injEq, Out.ok.injEq] at h
+    obtain ⟨hv, hc'⟩ := h
+    subst hv
+    obtain ⟨pre, hpre⟩ := hsuffix v' rest hf
+    have hl : c.bytes.length = c.len := Cur.bytes_length hinv
+    have hlen : pre.length + rest.length = c.len := by
+      rw [← hl, hpre]; simp
+    have hk : c.bytes.length - rest.length = pre.length := by omega
+    rw [hk, Shared.skip_eq] at hc'
+    unfold Slice.skip at hc'
+    have : ¬ c.len < pre.length := by omega
+    simp only [this, if_false] at hc'
+    subst hc'
+    refine ⟨rest, rfl, rfl, ?_, by simp only; omega, by simp only; omega⟩
+    -- the bytes of the advanced window are the decoder's rest
+    have hb : c.bytes = (c.sec.drop c.off).take c.len := rfl
+    simp only [Cur.bytes]
+    have h1 : (c.sec.drop (c.off + pre.length)).take (c.len - pre.length) = c.bytes.drop pre.length := by
+      rw [hb, List.drop_take, List.drop_drop]
+    rw [h1, hpre]
+    simp
+  | err x => rw [hf] at h; simp at h
+  | panic w => rw [hf] at h; simp at h
+  | diverge => rw [hf] at h; simp at h
+
 end Gimli.Rd
